@@ -144,6 +144,39 @@ def run_schedule(g, genesis, originals, dist, nblocks, rng, covered, explicit, L
         viols.append(Viol("C01", "walker-recursion", "?", "region nesting too deep to walk"))
     stats["w1_steps"] += len(w1.trace)
     stats["c06_branch_events"] += w1.m.c06_events
+    if viols and viols[0].prop == "C04" and viols[0].cls == "unresolvable-target":
+        # follow the same decisions over the flattened hierarchy (names are unique,
+        # so a global lookup is well defined): what the dangling name leads to is
+        # C06's and C01's business as well
+        wf = W1(g, originals, flat=True)
+        wf.m.synth_budget = 4 * nblocks + 8
+        stats["flat_rewalks"] = stats.get("flat_rewalks", 0) + 1
+        try:
+            wf.start()
+            j = 0
+            seq = [genesis[0][0]]
+            ref = W0(genesis)
+            while True:
+                o = wf.run_to_original()
+                if o is None:
+                    break
+                if o != ref.cur:
+                    raise Viol("C01", "trace-divergence(flat-walk)", o,
+                               "expected original block %s, flattened walk reached %s" % (ref.cur, o))
+                if ref.arity() == 0:
+                    wf.take(0)
+                    continue
+                if j >= len(decisions):
+                    break
+                ref.take(decisions[j])
+                wf.take(decisions[j])
+                j += 1
+        except Viol as v2:
+            if v2.prop in ("C06", "C01"):
+                v2.cls = v2.cls if v2.cls.endswith("(flat-walk)") else v2.cls + "(flat-walk)"
+                viols.append(v2)
+        except RecursionError:
+            pass
 
     # W2 on the same decisions (if W1 died mid-way, W0 has one decision more
     # applied than recorded at most; the recorded list is what W2 replays)
